@@ -13,9 +13,32 @@ def base():
     return '/dev/shm' if os.path.isdir('/dev/shm') and os.access('/dev/shm', os.W_OK) else tempfile.gettempdir()
 
 
+def _keyed(key):
+    """deterministic directory name for a run (absolute scratch paths end up in @PG header lines written by samtools,
+    so a random name makes compressed file sizes vary by a byte or two); first free suffix, normally 0"""
+    import hashlib
+    h = hashlib.sha256(str(key).encode()).hexdigest()[:10]
+    for k in range(100):
+        d = os.path.join(base(), f'simv-{h}{k:02d}')
+        try:
+            os.mkdir(d, 0o700)
+            return d
+        except FileExistsError:
+            try:        # left behind by a killed run: older than 15 minutes -> reclaim
+                import time
+                if time.time() - os.path.getmtime(d) > 900:
+                    shutil.rmtree(d, ignore_errors=True)
+                    os.mkdir(d, 0o700)
+                    return d
+            except OSError:
+                pass
+            continue
+    return tempfile.mkdtemp(prefix='simv-', dir=base())
+
+
 @contextlib.contextmanager
-def scratch(prefix='simv-'):
-    d = tempfile.mkdtemp(prefix=prefix, dir=base())
+def scratch(prefix='simv-', key=None):
+    d = _keyed(key) if key is not None else tempfile.mkdtemp(prefix=prefix, dir=base())
     try:
         yield d
     finally:
